@@ -388,9 +388,41 @@ func runC19(c *Ctx) {
 				val interface{}
 			}
 			var edits []edit
+			// strings and numbers that occur elsewhere in the same document (a field name where
+			// another one belongs, an object id that belongs to another entry...)
+			var docStrings, docNumbers []interface{}
+			seenVal := map[string]bool{}
+			walkJSON(tree, nil, func(jp jpath, v interface{}) {
+				switch x := v.(type) {
+				case string:
+					if !seenVal["s"+x] && len(docStrings) < 24 {
+						seenVal["s"+x] = true
+						docStrings = append(docStrings, x)
+					}
+				case json.Number:
+					if !seenVal["n"+x.String()] && len(docNumbers) < 8 {
+						seenVal["n"+x.String()] = true
+						docNumbers = append(docNumbers, x)
+					}
+				}
+			})
 			walkJSON(tree, nil, func(jp jpath, v interface{}) {
 				for _, rv := range replacementValues {
 					edits = append(edits, edit{jp, "set", rv})
+				}
+				switch v.(type) {
+				case string:
+					for _, o := range docStrings {
+						if o != v {
+							edits = append(edits, edit{jp, "set", o})
+						}
+					}
+				case json.Number:
+					for _, o := range docNumbers {
+						if o != v {
+							edits = append(edits, edit{jp, "set", o})
+						}
+					}
 				}
 				if len(jp) > 0 {
 					edits = append(edits, edit{jp, "del", nil})
